@@ -5,6 +5,6 @@
 Require Extraction.
 Require Import ExtrOcamlBasic ExtrOcamlString.
 From Slinky Require Import Model.Types Model.Parse Model.Runtime Model.Style Model.Script
-  Model.Writer Model.Exports Model.Dump.
+  Model.Writer Model.Exports Model.Dump Model.LdSem Model.LdDump.
 Extraction Language OCaml.
-Extraction "model.ml" run_case cli_run jcli.
+Extraction "model.ml" run_case cli_run jcli run_link.
